@@ -69,7 +69,7 @@ def native_ns():
         pycomm3 = _import_all("pycomm3")
         spec = _import_all("spec")
         _NS = {"pycomm3": pycomm3, "spec": spec, "io": io, "implies": implies, "stream_of": stream_of,
-               "type_name": type_name}
+               "type_name": type_name, "same": lambda a, b: veq(a, b)}
     return dict(_NS)
 
 
